@@ -75,3 +75,6 @@ def sub(*classes):
         return extract_grammar(list(classes), START, **kw)
 
     return g
+
+
+g_RI, g_RF, g_RS, g_RW, g_RV, g_RD, g_RL = sub(RI), sub(RF), sub(RS), sub(RW), sub(RV), sub(RD), sub(RL, RI)
